@@ -333,6 +333,8 @@ class Asm:
             return 'swap_cpsr'
         if r < 0.3:
             return 'take_data_abort'
+        if r < 0.42:
+            return ['hub', rng.choice(('swap', 'move', 'move', 'pop'))]        # resolved against the case's device list
         cands = [['toggle', 'sctlr', 13], ['toggle', 'sctlr', 13], ['toggle', 'sctlr', 1], ['toggle', 'sctlr', 25], ['toggle', 'sctlr', 30], ['toggle', 'sctlr', 27],
                  ['xor', 'vbar', rng.choice((0x80, 0x40, 0x20, 0x8000))], ['xor', 'vbar', 0x80], ['xor', 'cpacr', rng.getrandbits(28)], ['toggle', 'sctlr', 0]]
         if self.cfg.get('memory_system_architecture', 'PMSA') == 'PMSA':
@@ -682,8 +684,33 @@ def shard_history(plan_ref, seed, examples):
         # system-register writes by the embedder: resolve the relative markers against the values the registers have in this case (a later write to the
         # same register builds on the earlier one)
         cur = {}
+        nmem = len(case['mems'])
         for k_ in sorted(inject, key=int):
             op = inject[k_]
+            if isinstance(op, list) and op[0] == 'hub' and len(op) == 2:
+                # the embedder re-arranges the memory map between two instructions: two equally sized windows exchanged in place, one window moved to a free
+                # range, the last device unplugged. Everything after it is judged against the new map (unmapped addresses read as zero, writes are dropped)
+                ms_ = case['mems']
+                pairs = [(i_, j_) for i_ in range(nmem) for j_ in range(i_ + 1, nmem) if ms_[i_][1] == ms_[j_][1]]
+                if op[1] == 'swap' and pairs:
+                    inject[k_] = ['hub', 'swap'] + list(rng.choice(pairs))
+                elif op[1] == 'pop' and nmem > 3:
+                    if rng.random() < 0.7 and not any(m_[0] == 0x40000 for m_ in ms_):
+                        # the device that is unplugged is a larger one plugged in behind the others (two whole 4 KiB pages), and the program's data pointers
+                        # point into it: it is used before it goes away, and the same addresses are used again afterwards
+                        ms_.append([0x40000, 0x2000])
+                        for rk, rv in list(st_.items()):
+                            if rk.startswith('R.') and isinstance(rv, int) and 0x20000 <= rv < 0x20140:
+                                st_[rk] = rv + 0x20F00
+                        for pa_, hx_ in list(case['poke']):
+                            if 0x20000 <= pa_ < 0x20140:
+                                case['poke'].append([pa_ + 0x20F00, hx_])
+                    else:
+                        nmem -= 1
+                    inject[k_] = ['hub', 'pop']
+                else:
+                    inject[k_] = ['hub', 'move', rng.randrange(nmem), rng.choice((0x30000, 0x28000, 0x8100, 0x20200, 0x100000))]
+                continue
             if isinstance(op, list) and op[0] in ('toggle', 'xor'):
                 base_v = cur.get(op[1], st_.get(op[1], 0))
                 nv = base_v ^ ((1 << op[2]) if op[0] == 'toggle' else op[2])
@@ -698,6 +725,9 @@ def shard_history(plan_ref, seed, examples):
                  sample=lambda: {'scenario': scen, 'program': [('%#x' % w) + (':' + nm if nm else '') for w, _i, nm in prog], 'thumb': thumb, 'cfg': cfgname, 'steps_compared': compared,
                                  'inject': case.get('inject'), 'status': res.status})
         acc.cls('history:ended:' + res.status)
+        for op_ in (case.get('inject') or {}).values():
+            if isinstance(op_, list) and op_[0] == 'hub':
+                acc.cls('history:map-changed:' + op_[1])
         if res.status in ('unpred', 'skip'):
             acc.excluded += 1
             if res.exc is not None and not target.escape_ok(res.exc):
